@@ -42,4 +42,19 @@ CORPUS = [
         more=[dict(scope='', old="        self.indices = indices\n", new="        self.indices = indices\n        self._cache = None\n", mode='text')]),
     Mut('c02-scalers-escape-the-pattern-weights', 'torchtree/evolution/tree_likelihood.py', '', "    return torch.sum(\n        (\n            torch.log(freqs @ torch.sum(props * partials[post_indexing[-1][0]], dim=-3))\n            + torch.cat(scalers, -2).log().sum(dim=-2).unsqueeze(-2)\n        )\n        * weights,\n        dim=-1,\n    )\n", "    site_log_p = torch.log(freqs @ torch.sum(props * partials[post_indexing[-1][0]], dim=-3))\n    log_scalers = torch.cat(scalers, -2).log().sum(dim=-2).unsqueeze(-2)\n    return torch.sum(site_log_p * weights + log_scalers, dim=-1)\n", expect=[('C02.W', 'weights-multiply-the-whole-site-term')], mode='text', nth=1),
     Mut('c02-benign-return-through-locals', 'torchtree/evolution/tree_likelihood.py', '', "    return torch.sum(\n        (\n            torch.log(freqs @ torch.sum(props * partials[post_indexing[-1][0]], dim=-3))\n            + torch.cat(scalers, -2).log().sum(dim=-2).unsqueeze(-2)\n        )\n        * weights,\n        dim=-1,\n    )\n", "    site_log_p = torch.log(freqs @ torch.sum(props * partials[post_indexing[-1][0]], dim=-3))\n    log_scalers = torch.cat(scalers, -2).log().sum(dim=-2).unsqueeze(-2)\n    return torch.sum((site_log_p + log_scalers) * weights, dim=-1)\n", benign=True, mode='text', nth=1),
+    T('c02-heights-from-the-first-child-only', TM, "            heights[node.index] = max(\n                [\n                    heights[c.index] + max(eps, c.edge_length)\n                    for c in node.child_node_iter()\n                ]\n            )\n",
+      "            child = next(node.child_node_iter())\n            heights[node.index] = heights[child.index] + max(eps, child.edge_length)\n",
+      expect=[('C02.N', 'heights_from_branch_lengths::children-selected-one-at-a-time-are-all-selected')]),
+    T('c02-heights-from-child-zero', TM, "            heights[node.index] = max(\n                [\n                    heights[c.index] + max(eps, c.edge_length)\n                    for c in node.child_node_iter()\n                ]\n            )\n",
+      "            kids = node.child_nodes()\n            heights[node.index] = heights[kids[0].index] + max(eps, kids[0].edge_length)\n",
+      expect=[('C02.N', 'heights_from_branch_lengths::children-selected-one-at-a-time-are-all-selected')]),
+    T('c02-benign-heights-from-both-children-by-index', TM, "            heights[node.index] = max(\n                [\n                    heights[c.index] + max(eps, c.edge_length)\n                    for c in node.child_node_iter()\n                ]\n            )\n",
+      "            kids = node.child_nodes()\n            heights[node.index] = max(\n                heights[kids[0].index] + max(eps, kids[0].edge_length),\n                heights[kids[1].index] + max(eps, kids[1].edge_length),\n            )\n", benign=True),
+    T('c02-patterns-keyed-by-the-encoded-column', SP, "        count_dict = Counter(list(zip(*sequences)))\n", "        count_dict = Counter(tuple(map(alignment.data_type.encoding, column)) for column in zip(*sequences))\n",
+      expect=[('C02.N', 'compress::patterns-are-the-distinct-raw-columns')]),
+    T('c02-patterns-counted-incrementally-by-a-folded-key', SP, "        count_dict = Counter(list(zip(*sequences)))\n", "        count_dict = Counter()\n        for column in zip(*sequences):\n            count_dict[tuple(c.upper() for c in column)] += 1\n",
+      expect=[('C02.N', 'compress::patterns-are-the-distinct-raw-columns')]),
+    T('c02-benign-patterns-counted-incrementally', SP, "        count_dict = Counter(list(zip(*sequences)))\n", "        count_dict = Counter()\n        for column in zip(*sequences):\n            count_dict[column] += 1\n", benign=True),
+    T('c02-leaf-labels-read-as-positions', TM, "    tree.resolve_polytomies(update_bipartitions=True)\n", "    for taxon in tree.taxon_namespace:\n        if taxon.label.isdigit():\n            taxon.label = taxa[int(taxon.label) - 1].id\n    tree.resolve_polytomies(update_bipartitions=True)\n",
+      expect=[('C02.N', 'leaf-labels-are-taxon-names-never-positions')]),
 ]
